@@ -8,8 +8,10 @@ import mutant
 VERIF = os.path.dirname(os.path.dirname(os.path.abspath(__file__)))
 pid, mk = sys.argv[1], sys.argv[2]
 checks = sys.argv[3:] or [pid]
-src = f"/tmp/mut/{pid}/out/{mk}"
-dst = os.path.join(VERIF, "seeded", f"{pid}-{mk}")
+base = os.environ.get("MUT_BASE", "/tmp/mut")                 # where the sub-agent wrote <PID>/out/<mK>
+name = os.environ.get("MUT_AS", mk)                           # name to store it under (a second round continues the numbering)
+src = f"{base}/{pid}/out/{mk}"
+dst = os.path.join(VERIF, "seeded", f"{pid}-{name}")
 conf = mutant.confirm(src)
 rebased = conf.pop("rebased_patch", None)
 ok = conf.get("demo_without_patch") == 0 and conf.get("demo_with_patch") not in (0, None) and conf.get("suite_ok")
